@@ -7,6 +7,7 @@ CONSTANTS
   MaxPermSegs = 3
   ReadModes = {"free"}
   KeysetSizes = {1, 2}
+  NShapes = 4
 INIT MCInit
 NEXT MCNext
 VIEW View
